@@ -9,56 +9,82 @@ from fractions import Fraction
 
 ID = 'C09'
 OCAML_UTILS = ['zio.ml']
+OCAML_PACKAGES = ['coq-core.kernel']
+OCAML_FLAGS = '-rectypes -thread'
 
-RULE = ('focal.apply: every odd kernel shape 1x1..5x7 (12 shapes) x 7 built-in + 5 jitted user reducers (nanmax-nanmin, count of non-NaN, '
+RULE = ('EXACT stream (model at the exact instance, small-integer / dyadic data, plus a Fraction oracle): focal.apply: every odd kernel '
+        'shape 1x1..5x7 (12 shapes) x 7 built-in + 5 jitted user reducers (nanmax-nanmin, count of non-NaN, '
         'count of NaN, first element, index-weighted sum) on random rasters 1x1..8x8 (small integers / quarter-integers / all-distinct '
         'values, NaN density 0..0.6, float64/float32/int32/int64), random asymmetric 0/1 kernels incl. one-sided ones, entries that are '
         'not 1 (2, 0.5, -1), kernels larger than the raster, one-cell kernels at every offset; thorough tier additionally ALL 512 0/1 '
-        'kernels of shape 3x3 and all of shape 1x3/3x1/1x5/5x1 with the index-weighted reducer. focal_stats: default and random '
-        'sub-lists/orders of the 7 statistics. focal.mean: passes 0..3 x excludes [nan] / [nan,v] / [v] / [v,w] / [v,nan,w]. '
-        'convolution_2d: dyadic and integer weighted kernels of every odd shape up to 5x7, rasters smaller than the kernel included. '
-        '_calc_hotspots_numpy: z-scores at, one ulp (float64 and float32) below and above every ladder constant, both signs, +-0, NaN, '
-        '+-inf. hotspots: rasters with +-1000 clusters, 0/1 kernels, constant rasters, negation. custom_kernel: all shapes 1..7 (11) '
-        'squared plus non-ndarray input. A case is non-trivial when the raster has a non-NaN cell (hotspots: is not constant); cases are '
-        'distinct by their JSON encoding.')
+        'kernels of shape 3x3 and all of shape 1x3/3x1/1x5/5x1 with the index-weighted reducer; Dask-backed rasters split into chunks. '
+        'focal_stats: default and random sub-lists/orders of the 7 statistics. focal.mean: passes 0..3 x excludes [nan] / [nan,v] / '
+        '[v] / [v,w] / [v,nan,w]. convolution_2d: dyadic and integer weighted kernels of every odd shape up to 5x7, rasters smaller than '
+        'the kernel included. _calc_hotspots_numpy: z-scores at, one ulp (float64 and float32) below and above every ladder constant, '
+        'both signs, +-0, NaN, +-inf. hotspots: rasters with +-1000 clusters, 0/1 kernels, constant rasters, negation. custom_kernel: '
+        'all shapes 1..7 (11) squared plus non-ndarray input. '
+        'FLOAT stream (the SAME model definitions at the float instance, compared BIT-FOR-BIT): random non-integer rasters 1x1..8x8 of '
+        'six kinds (N(0,100); magnitudes 1e-20..1e20; 1e25..1e38.4 = float32 overflow; 1e-46..1e-30 = float32 subnormals/underflow; '
+        '1000 +- 1e-3 = cancellation), 12% NaN, 2% +-inf, float64 and float32 input: focal.apply for the 7 built-in statistics x 12 kernel '
+        'shapes, focal_stats, focal.mean passes 0..3 with excludes taken from the data, convolution_2d with random real weights '
+        '(1e-3..1e3), _calc_hotspots_numpy on float32 z-scores, the full hotspots pipeline, and np.nanmean/np.nanstd of the float32 '
+        'raster against the model of NumPy\'s pairwise summation. A case is non-trivial when the raster has a non-NaN cell (hotspots: is '
+        'not constant); cases are distinct by their JSON encoding.')
 TRUSTED = [
-    'cell values are exact rationals with an explicit NaN (option Q); the generated data are small integers / dyadic fractions so '
-    'that every float32/float64 sum of the implementation is exact and only the final store rounds (mean, var, std, passes >= 2 of '
-    'focal.mean compare with a stated tolerance: 4e-6 relative for float32 results, 1e-9 for float64); +-inf cells are outside the model',
-    'x ** 0.5 (nanstd) is an external function of the model (Section variable qsqrt; the theorems hold for every function); the OCaml '
-    'driver instantiates it with the double-precision sqrt of the nearest double',
+    'EXACT stream: cell values are exact rationals with an explicit NaN (option Q); the generated data are small integers / dyadic '
+    'fractions so that every float32/float64 sum of the implementation is exact and only the final store rounds (mean, var, std, '
+    'passes >= 2 of focal.mean compare with a stated tolerance: 4e-6 relative for float32 results, 1e-9 for float64); the exact '
+    'instance has no infinities (x/0 = NaN); hotspots z-scores are skipped within 2e-4 (relative) of a threshold; +-inf z-scores are fed '
+    'as +-2^70; x ** 0.5 is the Section variable qsqrt there (theorems hold for every function; the driver passes the double sqrt)',
+    'FLOAT stream: binary32 = Coq SpecFloat operations at (prec 24, emax 128), binary64 = PrimFloat (hardware doubles in the extracted '
+    'OCaml via ExtrOCamlFloats); NO tolerance anywhere: every cell is compared bit-for-bit (any NaN = any NaN; signed zeros and '
+    'infinities must agree). Embedding assumptions: Numba compiles the kernels without fast-math / FMA contraction; `x ** 0.5` is '
+    'modelled as the correctly rounded sqrt (LLVM turns pow(x, 0.5) into sqrt; 200000 random doubles agreed); a float literal of the '
+    'source is its exact rational value (Generated.v) converted by an exact division',
+    'NumPy primitives modelled, not verified: np.nanmean / np.nanstd of the float32 raster in hotspots = _replace_nan + np.sum + '
+    '_divide_by_count as in numpy/lib/_nanfunctions_impl.py with the pairwise summation of loops_utils.h.src for a contiguous array '
+    'of at most 128 elements (plain loop below 8 elements, otherwise 8 running accumulators combined as ((r0+r1)+(r2+r3))+((r4+r5)+'
+    '(r6+r7)) plus the tail) — reproduced bit-for-bit on every generated raster (<= 64 cells), not a tolerance; rasters above 128 '
+    'cells (recursive splitting) are outside the model; kernel.sum() is a sequential float64 sum (exact for the 0/1 kernels hotspots '
+    'documents); astype(float32) = round-to-nearest-even',
     'Numba\'s np.nanmean/nansum/nanvar/nanstd/nanmin/nanmax are modelled from their Numba source (arraymath.py), not verified; '
     'np.nditer order is taken to be row-major (C-ordered kernels)',
-    'hotspots: the float32 z-score of the implementation is compared with the exact z-score except within 2e-4 (relative) of a '
-    'threshold; +-inf z-scores are fed to the model as +-2^70 (the ladder only compares)',
-    'the user reducers of the correspondence are jitted Python functions whose Gallina twins (Model.u_*) were written by hand',
+    'the user reducers of the exact stream are jitted Python functions whose Gallina twins (Model.u_*) were written by hand',
 ]
-ASSUMPTIONS = ['NumPy backend only (Dask/CuPy equality is C01)', 'rasters have at least one row and one column and are rectangular',
-               'kernels are C-ordered 2-D ndarrays; for hotspots kernel.sum() != 0', 'finite or NaN cells (no +-inf)',
-               'focal.mean: `excludes` is a non-empty list of floats (Numba cannot type an empty or mixed int/float tuple)']
+ASSUMPTIONS = ['NumPy backend (a Dask-backed sub-stream checks chunked apply/focal_stats against the same model; CuPy not covered)',
+               'rasters have at least one row and one column and are rectangular',
+               'kernels are C-ordered 2-D ndarrays; for hotspots 0/1 kernels with kernel.sum() != 0 and rasters of at most 128 cells',
+               'focal.mean: `excludes` is a non-empty list of floats (Numba cannot type an empty or mixed int/float tuple)',
+               'integer rasters are covered by the exact stream only (the float stream feeds float64 / float32 arrays)']
 PARTIAL = [
-    'no PrimFloat / binary32 instance: float rounding of the implementation (float32 accumulation of nansum, float64 of nanmean/nanvar) '
-    'is outside the theorems; bit-exact random-float correspondence not built',
-    'the statement "nanmean/nanvar/nanstd of exactly those cells" is by definition of the modelled reducers over the non-NaN window '
-    'values (C09_window_values); nanmin/nanmax are proved from the Numba loop as written (C09_min_max_spec)',
+    'the float instance is tied to the code by bit-exact correspondence, not by theorems about rounding: the structural theorems '
+    '(window contents, focal_stats layers, mean block / passes / pass-through, convolution window and border, hotspot value set) hold '
+    'for EVERY arithmetic instance incl. the float one; the arithmetic-content theorems (min/max bounds, sum/count, NaN-iff of the '
+    'convolution, threshold ladder, negation symmetry) are proved for the exact instance only',
+    'hotspots(-X) = -hotspots(X): proved at the exact instance for sum/count global reductions (C09_hotspots_negate) and for any '
+    'reductions that are odd/even under negation (C09_hotspots_negate_any_reduction); not proved for the modelled NumPy pairwise '
+    'order (there it is the exact metamorphic test on the implementation) nor at the float instance (IEEE negation symmetry not formalised)',
     'kernels of even shape read outside the kernel array in _apply_numpy/_convolve_2d_numpy (undefined behaviour under Numba); the '
     'theorems assume odd shapes, which focal.apply/focal_stats enforce through custom_kernel; convolution_2d and hotspots do not validate',
 ]
-LEVEL_TEXT = ('Proved in Coq for all raster sizes, all odd kernel shapes (non-square, asymmetric, larger than the raster), all cell types and '
-              'all reducers: each focal.apply output cell is the reducer applied to the window whose entry (i,j) is data[y+i-hr][x+j-hc] '
-              'if inside the raster and kernel[i][j]==1, else NaN (C09_apply_window_spec, by a loop invariant over the nested stores into '
-              'the re-filled scratch buffer); focal_stats layer k is apply with the reducer named by stats_funcs[k] (table regenerated '
-              'from the source); focal.mean is the clipped 3x3 nanmean with excluded values passed through, passes = iteration; '
-              'convolution_2d is the weighted sum over the full window and NaN exactly where the window leaves the raster or covers a NaN; '
-              'the hotspot ladder yields only 0/+-90/+-95/+-99 with thresholds 1.65/1.96/2.58 (constants regenerated from the source), '
-              'is odd in the z-score, and hotspots(-X) = -hotspots(X) holds for the whole exact pipeline (for every function standing '
-              'for the square root); custom_kernel accepts exactly odd x odd ndarrays. All 17 theorems are closed under the global '
-              'context (no axioms). Correspondence (extracted model vs implementation) and a Fraction oracle cover all seven statistics, '
-              'five user reducers, passes 0..3, excludes, weighted kernels and the full hotspots pipeline; float rounding of the '
-              'implementation (no PrimFloat instance) is covered by the correspondence only, on data chosen so that sums are exact.')
-LEVEL_NOTE = ('Trusted: Coq kernel, extraction, the OCaml driver (incl. its float sqrt standing for x**0.5), the hand-written model of '
-              'the Numba kernels and of Numba\'s nan-reducers, exact-rational embedding of the generated float data (sums exact by '
-              'construction, stated tolerances for mean/var/std), the fail-closed AST translator producing Generated.v (hotspot ladder, '
+LEVEL_TEXT = ('The kernels are written ONCE over an arithmetic record (coq/C09/Arith.v) and used at two instances: exact (option Q) for the '
+              'theorems and float (SpecFloat binary32 + PrimFloat binary64, Numba\'s promotions spelled out as widen/narrow) for a bit-for-bit '
+              'correspondence on random float data. Proved for all raster sizes, all odd kernel shapes (non-square, asymmetric, larger than '
+              'the raster) and EVERY arithmetic instance: each focal.apply cell is the reducer applied to the window whose entry (i,j) is '
+              'data[y+i-hr][x+j-hc] if inside the raster and kernel[i][j]==1, else NaN (loop invariant over the stores into the re-filled '
+              'scratch buffer, any cell type, any reducer); focal_stats layer k is apply with the reducer named by stats_funcs[k]; the '
+              'nan-reducers loop over exactly the non-NaN cells under the kernel; focal.mean is Numba\'s nanmean loop over the clipped 3x3 '
+              'block, excluded values pass through, passes = iteration; convolution_2d is the row-major float64-accumulated weighted sum '
+              'over the full window rounded once, NaN on the border; hotspot values lie in {0,+-90,+-95,+-99}. Proved at the exact instance: '
+              'nanmean/nanvar = sum/count formulas, nanmin/nanmax bounds, convolution NaN iff a NaN under the window, thresholds '
+              '1.65/1.96/2.58 (constants regenerated from the source), oddness in z and hotspots(-X) = -hotspots(X) for the whole pipeline; '
+              'custom_kernel accepts exactly odd x odd ndarrays. 21 theorems, all closed under the global context (no axioms). '
+              'Correspondence: exact stream + Fraction oracle (all statistics, five user reducers, passes, excludes, weighted kernels, '
+              'Dask chunks) and float stream with no tolerance (NaN/inf/overflow/subnormal data, incl. NumPy\'s pairwise float32 nanmean/nanstd).')
+LEVEL_NOTE = ('Trusted: Coq kernel, extraction (ExtrOCamlFloats: PrimFloat = hardware doubles), the OCaml driver, the hand-written model of '
+              'the Numba kernels, of Numba\'s nan-reducers and of NumPy\'s pairwise float32 sum / _divide_by_count, the assumptions that '
+              'Numba emits IEEE operations without contraction and sqrt for x**0.5, the exact-rational embedding of the exact stream '
+              '(stated tolerances for mean/var/std there), the fail-closed AST translator producing Generated.v (hotspot ladder, '
               'statistic table, defaults), the Python harness and oracle.')
 
 # ---------------------------------------------------------------------------------------------
@@ -1003,6 +1029,253 @@ def run(ctx):
     pend.append(('defaults', [(want, 'raw')], dict(fn='defaults'), 'defaults of focal_stats / apply'))
     ctx.exhaustive = False
     compare_model(ctx, pend)
+    run_float_stream(ctx)
+
+
+# ---------------------------------------------------------------------------------------------
+# the FLOAT stream: random non-integer data, compared BIT-FOR-BIT with the float instance of the model
+# ---------------------------------------------------------------------------------------------
+import struct  # noqa: E402
+
+
+def ftok(v):
+    v = float(v)
+    if math.isnan(v):
+        return 'nan'
+    if math.isinf(v):
+        return 'inf' if v > 0 else '-inf'
+    return v.hex()
+
+
+def fgrid_line(a):
+    a = np.asarray(a, dtype='float64')
+    return '%d %d %s' % (a.shape[0], a.shape[1], ' '.join(ftok(v) for v in a.ravel().tolist()))
+
+
+def fparse(t):
+    return NAN if t in ('nan', '-nan') else float.fromhex(t) if 'x' in t else float(t)
+
+
+def same_bits(a, b):
+    """two binary64 values (float32 results are widened exactly): equal bit patterns, any NaN equals any NaN"""
+    a, b = float(a), float(b)
+    if math.isnan(a) or math.isnan(b):
+        return math.isnan(a) and math.isnan(b)
+    return struct.pack('<d', a) == struct.pack('<d', b)
+
+
+def rnd_float(rng, kind, nanp=0.12, infp=0.02):
+    u = rng.random()
+    if u < nanp:
+        return NAN
+    if u > 1.0 - infp:
+        return float('inf') if rng.random() < 0.5 else float('-inf')
+    if kind == 'wide':
+        return rng.gauss(0, 1) * 10 ** rng.uniform(-20, 20)
+    if kind == 'big':                       # overflows float32 / products overflow
+        return rng.gauss(0, 1) * 10 ** rng.uniform(25, 38.4)
+    if kind == 'tiny':                      # float32 subnormals / underflow
+        return rng.gauss(0, 1) * 10 ** rng.uniform(-46, -30)
+    if kind == 'near':                      # nearly equal values: cancellation in var / z-scores
+        return 1000.0 + rng.gauss(0, 1e-3)
+    return rng.gauss(0, 100)
+
+
+FKINDS = ['norm', 'norm', 'wide', 'big', 'tiny', 'near']
+
+
+def gen_fraster(rng, rows=None, cols=None, kind=None, nanp=0.12, infp=0.02, dtype=None):
+    rows = rows or rng.randint(1, 8)
+    cols = cols or rng.randint(1, 8)
+    kind = kind or rng.choice(FKINDS)
+    a = np.array([[rnd_float(rng, kind, nanp, infp) for _ in range(cols)] for _ in range(rows)], dtype='float64')
+    dtype = dtype or 'float64'
+    with np.errstate(all='ignore'):
+        a = a.astype(dtype)
+    return a, dtype, kind
+
+
+def fcompare(ctx, fpend):
+    """fpend: (line, impl flat floats or raw string or ints, mode, case, what)"""
+    if ctx.model is None or not fpend:
+        return
+    outs = ctx.model.run([p[0] for p in fpend])
+    for (line, got, mode, case, what), mo in zip(fpend, outs):
+        ctx.traces += 1
+        if mo.startswith('ERR'):
+            ctx.violation('correspondence', '%s [float instance]: model returned %s' % (what, mo[:100]), case)
+            continue
+        if mode == 'raw':
+            if mo != got:
+                ctx.violation('correspondence', '%s [float instance]: implementation %r vs model %r' % (what, got, mo), case)
+            continue
+        if mo in ('REJECT', 'ZERODIV'):
+            ctx.violation('correspondence', '%s [float instance]: model returned %s, the implementation a result' % (what, mo), case)
+            continue
+        toks = mo.split()
+        if len(toks) != len(got):
+            ctx.violation('correspondence', '%s [float instance]: model returned %d cells for %d' % (what, len(toks), len(got)), case)
+            continue
+        for i, (g, t) in enumerate(zip(got, toks)):
+            ok = (int(t, 0) == int(g)) if mode == 'int' else same_bits(g, fparse(t))
+            if not ok:
+                ctx.violation('correspondence', '%s [float instance, bit-for-bit]: implementation %s vs model %s at flat index %d' % (
+                    what, g if mode == 'int' else ftok(g), t, i), dict(case, flat_index=i, impl=g if mode == 'int' else ftok(g), model=t))
+                break
+
+
+def flat64(a):
+    return [float(v) for v in np.asarray(a, dtype='float64').ravel().tolist()]
+
+
+def frun_apply(ctx, fpend, a, dtype, kind, karr, names):
+    """names: one built-in statistic (focal.apply) or a list (focal_stats)"""
+    focal, conv, funcs = _impl()
+    single = isinstance(names, str)
+    case = dict(fn='f_apply' if single else 'f_stats', stats=names, data=to_rows(a), dtype=dtype, kind=kind, kernel=np.asarray(karr).tolist())
+    ctx.case(case)
+    ctx.count('float/%s/%s' % ('apply' if single else 'focal_stats', kind))
+    what = 'focal.%s(%s) on %s floats' % ('apply' if single else 'focal_stats', names, kind)
+    try:
+        with np.errstate(all='ignore'):
+            agg = xr.DataArray(a, dims=['y', 'x'])
+            out = focal.apply(agg, karr, funcs[names]).data if single else focal.focal_stats(agg, karr, stats_funcs=list(names)).data
+    except Exception as e:
+        ctx.violation('oracle', '%s raised %s: %s' % (what, type(e).__name__, str(e)[:200]), case)
+        return
+    if single:
+        fpend.append(('fapply %s %s %s' % (names, fgrid_line(a), fgrid_line(karr)), flat64(out), 'bits', case, what))
+    else:
+        fpend.append(('fstats %d %s %s %s' % (len(names), ' '.join(names), fgrid_line(a), fgrid_line(karr)), flat64(out), 'bits', case, what))
+
+
+def frun_mean(ctx, fpend, a, kind, passes, excludes):
+    focal, conv, funcs = _impl()
+    case = dict(fn='f_mean', passes=passes, excludes=list(excludes), data=to_rows(a), kind=kind)
+    ctx.case(case)
+    ctx.count('float/mean/passes=%d/%s' % (passes, kind))
+    what = 'focal.mean(passes=%d, excludes=%r) on %s floats' % (passes, excludes, kind)
+    try:
+        with np.errstate(all='ignore'):
+            out = focal.mean(xr.DataArray(a, dims=['y', 'x']), passes=passes, excludes=list(excludes)).data
+    except Exception as e:
+        ctx.violation('oracle', '%s raised %s: %s' % (what, type(e).__name__, str(e)[:200]), case)
+        return
+    fpend.append(('fmean %d %d %s %s' % (passes, len(excludes), ' '.join(ftok(e) for e in excludes), fgrid_line(a)),
+                  flat64(out), 'bits', case, what))
+
+
+def frun_conv(ctx, fpend, a, dtype, kind, karr):
+    focal, conv, funcs = _impl()
+    case = dict(fn='f_conv', data=to_rows(a), dtype=dtype, kind=kind, kernel=np.asarray(karr).tolist())
+    ctx.case(case)
+    ctx.count('float/convolution_2d/%s' % kind)
+    what = 'convolution_2d(kernel %dx%d) on %s floats' % (karr.shape[0], karr.shape[1], kind)
+    try:
+        with np.errstate(all='ignore'):
+            out = conv.convolution_2d(xr.DataArray(a, dims=['y', 'x']), karr).data
+    except Exception as e:
+        ctx.violation('oracle', '%s raised %s: %s' % (what, type(e).__name__, str(e)[:200]), case)
+        return
+    fpend.append(('fconv %s %s' % (fgrid_line(a), fgrid_line(karr)), flat64(out), 'bits', case, what))
+
+
+def frun_hot(ctx, fpend, z32):
+    focal, conv, funcs = _impl()
+    case = dict(fn='f_hot', z=to_rows(z32))
+    ctx.case(case)
+    ctx.count('float/calc_hotspots')
+    out = [int(v) for v in focal._calc_hotspots_numpy(z32).ravel().tolist()]
+    fpend.append(('fhot ' + fgrid_line(z32), out, 'int', case, '_calc_hotspots_numpy on float32 z-scores'))
+
+
+def frun_hotspots(ctx, fpend, a, dtype, kind, karr):
+    focal, conv, funcs = _impl()
+    case = dict(fn='f_hotspots', data=to_rows(a), dtype=dtype, kind=kind, kernel=np.asarray(karr).tolist())
+    ctx.case(case)
+    ctx.count('float/hotspots/%s' % kind)
+    what = 'hotspots(kernel %dx%d) on %s floats' % (karr.shape[0], karr.shape[1], kind)
+    with np.errstate(all='ignore'):
+        a32 = a.astype('float32')
+        gm, gs = np.nanmean(a32), np.nanstd(a32)
+    # NumPy's own global reductions against the model of its pairwise float32 summation
+    fpend.append(('fglobal ' + fgrid_line(a), [float(gm), float(gs)], 'bits', dict(case, fn='f_global'),
+                  'np.nanmean / np.nanstd of the float32 raster (pairwise summation model)'))
+    try:
+        with np.errstate(all='ignore'):
+            out = [int(v) for v in focal.hotspots(xr.DataArray(a, dims=['y', 'x']), karr).data.ravel().tolist()]
+        ctx.count('float/hotspots/cells-nonzero', sum(v != 0 for v in out))
+        for v in out:
+            if v not in (0, 90, 95, 99, -90, -95, -99):
+                ctx.violation('oracle', '%s: value %d outside {0, +-90, +-95, +-99}' % (what, v), case)
+                return
+        fpend.append(('fhotspots %s %s' % (fgrid_line(a), fgrid_line(karr)), out, 'int', case, what))
+    except ZeroDivisionError:
+        fpend.append(('fhotspots %s %s' % (fgrid_line(a), fgrid_line(karr)), 'ZERODIV', 'raw', case, what))
+    except Exception as e:
+        ctx.violation('oracle', '%s raised %s: %s' % (what, type(e).__name__, str(e)[:200]), case)
+
+
+def run_float_stream(ctx):
+    rng = ctx.rng
+    q = ctx.quick()
+    fpend = []
+    # focal.apply: every built-in statistic x every odd kernel shape
+    for rep in range(1 if q else 6):
+        for si, shape in enumerate(ODD_SHAPES):
+            for fi, fname in enumerate(BUILTIN):
+                if q and (si + fi) % 2:
+                    continue
+                a, dtype, kind = gen_fraster(rng)
+                k = np.array(gen_kernel01(rng, shape, style=rng.choice(['rand', 'full', 'sparse', 'corner'])), dtype='float64')
+                frun_apply(ctx, fpend, a, dtype, kind, k, fname)
+    for i in range(8 if q else 100):
+        a, dtype, kind = gen_fraster(rng, dtype='float32' if i % 2 else 'float64')
+        k = np.array(gen_kernel01(rng), dtype='float64')
+        frun_apply(ctx, fpend, a, dtype, kind, k, ['mean', 'sum'][i % 2] if dtype == 'float32' else rng.sample(BUILTIN, rng.randint(2, 7)))
+    for i in range(40 if q else 500):
+        a, dtype, kind = gen_fraster(rng)
+        passes = i % 4
+        vals = [float(v) for v in a.ravel().tolist()]
+        ex = [[NAN], [NAN, rng.choice(vals)], [rng.choice(vals)], [rng.choice(vals), rng.choice(vals)]][(i // 4) % 4]
+        frun_mean(ctx, fpend, a, kind, passes, ex)
+    for i in range(40 if q else 500):
+        shape = ODD_SHAPES[i % len(ODD_SHAPES)]
+        a, dtype, kind = gen_fraster(rng, rows=rng.randint(max(1, shape[0] - 1), 8), cols=rng.randint(max(1, shape[1] - 1), 8),
+                                     nanp=rng.choice([0.0, 0.03, 0.1]), infp=rng.choice([0.0, 0.02]),
+                                     dtype='float32' if i % 5 == 4 else 'float64')
+        k = np.array([[rng.gauss(0, 1) * 10 ** rng.uniform(-3, 3) for _ in range(shape[1])] for _ in range(shape[0])], dtype='float64')
+        frun_conv(ctx, fpend, a, dtype, kind, k)
+    for z in z_arrays()[1:]:
+        frun_hot(ctx, fpend, z)
+    for i in range(3 if q else 30):
+        with np.errstate(all='ignore'):
+            z = np.array([[rnd_float(rng, rng.choice(['norm', 'wide', 'tiny']), 0.1, 0.05) if rng.random() < 0.4 else rng.gauss(0, 2)
+                           for _ in range(8)] for _ in range(6)], dtype='float64').astype('float32')
+        frun_hot(ctx, fpend, z)
+    for i in range(40 if q else 500):
+        style = i % 4
+        if style == 0:
+            a, dtype = gen_hot_raster(rng, dtype='float64')
+            a = a + np.array([[rng.gauss(0, 0.37) for _ in range(a.shape[1])] for _ in range(a.shape[0])])
+            kind = 'clusters'
+        elif style == 1:
+            rows, cols = rng.randint(2, 8), rng.randint(2, 8)
+            a = np.array([[rng.gauss(5, 1) for _ in range(cols)] for _ in range(rows)])
+            for _ in range(rng.randint(1, 3)):
+                a[rng.randrange(rows), rng.randrange(cols)] = rng.choice([-1, 1]) * rng.uniform(3, 40)
+            kind = 'outliers'
+        else:
+            a, dtype, kind = gen_fraster(rng, rows=rng.randint(2, 8), cols=rng.randint(2, 8), kind=rng.choice(['norm', 'wide', 'near']),
+                                         nanp=rng.choice([0.0, 0.05, 0.2]), infp=0.0 if style == 2 else 0.03)
+        if rng.random() < 0.3:
+            a[rng.randrange(a.shape[0]), rng.randrange(a.shape[1])] = NAN
+        k = None
+        while k is None or not np.any(k == 1):
+            k = np.array(gen_kernel01(rng, shape=rng.choice([(1, 1), (1, 3), (3, 1), (3, 3), (3, 5), (5, 3)]),
+                                      style=rng.choice(['rand', 'full', 'sparse', 'corner'])), dtype='float64')
+        frun_hotspots(ctx, fpend, a, 'float64', kind, k)
+    fcompare(ctx, fpend)
 
 
 def search(ctx):
